@@ -29,8 +29,12 @@ class Scn:
 def q(s):
     return '"' + s.replace('\\', '\\\\').replace('"', '\\"') + '"'
 
-def conf_text(moddir, with_xq, with_class, svcs, rules, timeout, logs=None, omit_empty=False):
+def conf_text(moddir, with_xq, with_class, svcs, rules, timeout, logs=None, omit_empty=False, mods_variant=0):
     mods = ["iauth"] + (["iauth_xquery"] if with_xq else []) + (["iauth_class"] if with_class else [])
+    # the core.modules entry of a RELOADED file may be written differently: modules are neither loaded nor unloaded by a reload, so
+    # listing them in another order, or listing fewer, must not change anything (and must not leave anybody with a stale name, D25)
+    if mods_variant % 3 == 1: mods = mods[::-1]
+    elif mods_variant % 3 == 2: mods = mods[:1]
     t = 'core {\n library_path ( "%s" )\n modules ( %s )\n}\n' % (moddir, ", ".join(mods))
     t += 'iauth { timeout %d }\n' % timeout
     if with_xq and not (omit_empty and not svcs):
@@ -420,6 +424,7 @@ def run_daemon(impl, scn, marker=True, chunking=None, logs=None, extra_env=None,
                 else:
                     p.stdin.write(b); p.stdin.flush()
             try:
+                nreload = 0
                 if marker:
                     send(MARK); nmark += 1
                 for it in scn.items:
@@ -427,7 +432,8 @@ def run_daemon(impl, scn, marker=True, chunking=None, logs=None, extra_env=None,
                         send(it[1] + b"\n" + (MARK if marker else b"")); nmark += 1 if marker else 0
                     else:
                         pump(nmark)      # everything before the reload has been processed
-                        conf.write_text(conf_text(str(impl / "mods"), scn.with_xq, scn.with_class, it[1], it[2], it[3], logs, getattr(scn, 'omit_empty', False)), encoding="latin1")
+                        nreload += 1
+                        conf.write_text(conf_text(str(impl / "mods"), scn.with_xq, scn.with_class, it[1], it[2], it[3], logs, getattr(scn, 'omit_empty', False), mods_variant=nreload), encoding="latin1")
                         send(b"-1 ! reload\n" + (MARK if marker else b"")); nmark += 1 if marker else 0
                         pump(nmark)
                 p.stdin.close()
